@@ -63,7 +63,8 @@ struct Shared {
     char msg[512];
     pthread_mutex_t msg_mu = PTHREAD_MUTEX_INITIALIZER;
     std::atomic<long> handovers{0}, conns{0}, msgs{0};
-    int ctl0 = 0, nthreads = 0;
+    int ctl0 = 0, nthreads = 0, storm_rounds = 0;
+    std::atomic<long> storm_open{0};
     void fail(const char *fmt, ...) __attribute__((format(printf, 2, 3)))
     {
         pthread_mutex_lock(&msg_mu);
@@ -191,9 +192,38 @@ struct Worker {
         if (p.tp == 3) sh->utls_alive -= 2;
     }
 
+    // creation storm: all threads create cheap sockets at the same moment, round after round;
+    // afterwards every open socket must have its own control socket (process-unique ids)
+    void storm(int rounds, int per_round)
+    {
+        for (int r = 0; r < rounds && !sh->failed; r++) {
+            std::vector<struct xcm_socket *> v;
+            pthread_barrier_wait(&sh->barrier);
+            for (int i = 0; i < per_round; i++) {
+                std::string addr = "ux:c15s-" + std::to_string(getpid()) + "-" + std::to_string(id) + "-" + std::to_string(i);
+                struct xcm_attr_map *a = xcm_attr_map_create();
+                xcm_attr_map_add_bool(a, "xcm.blocking", false);
+                struct xcm_socket *s = xcm_server_a(addr.c_str(), a);
+                xcm_attr_map_destroy(a);
+                if (s) v.push_back(s);
+            }
+            sh->storm_open += (long)v.size();
+            pthread_barrier_wait(&sh->barrier);
+            if (id == 0) {
+                int files = count_dir(g_ctl) - sh->ctl0;
+                long want = sh->storm_open.load();
+                if (files != want) sh->fail("%ld sockets were created concurrently by %d threads but only %d control sockets exist: socket ids are not unique", want, sh->nthreads, files);
+            }
+            pthread_barrier_wait(&sh->barrier);
+            for (auto s : v) xcm_close(s);
+            sh->storm_open -= (long)v.size();
+        }
+    }
+
     static void *main(void *arg)
     {
         Worker *w = (Worker *)arg;
+        w->storm(w->sh->storm_rounds, 25);
         pthread_barrier_wait(&w->sh->barrier);
         for (auto &st : w->steps) {
             if (w->sh->failed) break;
@@ -275,6 +305,7 @@ public:
         Shared sh;
         sh.ctl0 = ctl0;
         sh.nthreads = nthreads;
+        sh.storm_rounds = 10 + (int)cfg.ch(30);
         pthread_barrier_init(&sh.barrier, nullptr, nthreads);
         std::vector<Worker> ws(nthreads);
         for (int i = 0; i < nthreads; i++) { ws[i].id = i; ws[i].sh = &sh; }
